@@ -1,8 +1,11 @@
 /-
   C17 - Genesis export then import reproduces settlement and oracle state.
-  The JSON and bech32 codec layer is exercised by the genesis engine, not modelled.
+  The document travels as JSON: free-form strings (request ids, prevote hashes) pass through `jsonStr`, which replaces whatever
+  is not UTF-8; the round trip is the identity because transactions only ever store valid UTF-8 there (Proofs/Utf8).
+  The bech32 and hex codecs are exercised by the genesis engine, not modelled.
 -/
 import SettlusModel.Proofs.GenesisLemmas
+import SettlusModel.Proofs.Utf8
 namespace Settlus.C17
 open Settlus
 
@@ -11,6 +14,7 @@ structure Exportable (s : State) : Prop where
   inv : SInv s.st
   cov : Covers s.st
   par : OParamsOk s
+  utf : Utf8Ok s
 
 theorem default_oparams_valid :
     oparamsValid defaultOParams.votePeriod defaultOParams.threshold defaultOParams.slashFraction defaultOParams.slashWindow defaultOParams.maxMiss = true := by
@@ -21,11 +25,40 @@ theorem reachable_oparams (H : Str → Str) (ops : List Op) : ∀ (s : State), O
   | nil => intro s h; exact h
   | cons op r ih => intro s h; exact ih _ (step_oparams H s op h)
 
-theorem reachable_exportable (H : Str → Str) (pr : Nat) (c : Bool) (ops : List Op) : Exportable (run H (initState pr c) ops) := by
+theorem reachable_exportable (H : Str → Str) (pr : Nat) (c : Bool) (ops : List Op) (hops : ∀ o ∈ ops, opUtf8 o) :
+    Exportable (run H (initState pr c) ops) := by
   obtain ⟨h1, h2⟩ := reachable_covers H pr c ops
-  refine ⟨h1, h2, reachable_oparams H ops _ ?_⟩
+  refine ⟨h1, h2, reachable_oparams H ops _ ?_, reachable_utf8 H pr c ops hops⟩
   unfold OParamsOk
   exact default_oparams_valid
+
+theorem allRecs_mem (st : SState) (p : Nat × Rec) (h : p ∈ allRecs st) : p.2 ∈ st.recs p.1 := by
+  unfold allRecs at h
+  simp only [List.mem_flatMap, List.mem_map] at h
+  obtain ⟨t, _, r, hr, e⟩ := h
+  rw [← e]; exact hr
+
+/-- **the JSON step changes nothing in a document exported from a reachable state** -/
+theorem json_is_identity_on_exports (s : State) (h : Utf8Ok s) : jsonG (exportG s) = exportG s := by
+  unfold jsonG exportG
+  simp only
+  congr 1
+  · conv => rhs; rw [← List.map_id (allRecs s.st)]
+    apply List.map_congr_left
+    intro p hp
+    have := h.reqs p.1 p.2 (allRecs_mem _ p hp)
+    rw [jsonStr_of_valid _ this]; rfl
+  · conv => rhs; rw [← List.map_id s.os.prevotes]
+    apply List.map_congr_left
+    intro p hp
+    rw [jsonStr_of_valid _ (h.hashes p hp)]; rfl
+
+/-- without the validation the JSON step is not the identity: a request id of the two bytes FF FE comes back as two U+FFFD -/
+theorem json_replaces_what_is_not_utf8 :
+    jsonStr [Char.ofNat 0xFF, Char.ofNat 0xFE] = fffd ++ fffd ∧ validUtf8 [Char.ofNat 0xFF, Char.ofNat 0xFE] = false := by
+  constructor
+  · simp [jsonStr, u8, fffd]
+  · simp [validUtf8, u8]
 
 theorem allRecs_eq_blocks (st : SState) : allRecs st = blocks st.recs st.recTenants := rfl
 
@@ -33,7 +66,7 @@ theorem allRecs_eq_blocks (st : SState) : allRecs st = blocks st.recs st.recTena
 amount, recipients, NFT and creation height in the same per-tenant order, the request-id index, feeder delegations, miss
 counters and ballots -/
 theorem import_export_reproduces (base s : State) (he : Exportable s) :
-    ∃ s', importG base (exportG s) = some s' ∧
+    ∃ s', importG base (jsonG (exportG s)) = some s' ∧
       s'.st.params = s.st.params ∧ s'.st.tenants = s.st.tenants ∧
       (∀ t, s'.st.recs t = s.st.recs t ∧ s'.st.index t = s.st.index t) ∧
       s'.os.params = s.os.params ∧ s'.os.prevotes = s.os.prevotes ∧ s'.os.votes = s.os.votes ∧
@@ -61,7 +94,8 @@ theorem import_export_reproduces (base s : State) (he : Exportable s) :
   let sA : State := { base with st := { st1 with tenants := s.st.tenants }, os := os' }
   let s' : State := { sA with os := { sA.os with round := some (nextRoundInfo sA) } }
   refine ⟨s', ?_, ?_, rfl, hrecs, rfl, rfl, rfl, rfl, rfl, ?_⟩
-  · unfold importG exportG
+  · rw [json_is_identity_on_exports s he.utf]
+    unfold importG exportG
     simp only [allRecs_eq_blocks]
     show (match importUtxrs (blocks s.st.recs s.st.recTenants) st0 with
       | none => none
@@ -86,15 +120,21 @@ theorem import_export_reproduces (base s : State) (he : Exportable s) :
 
 /-- **exporting again from the new chain yields the same genesis document** -/
 theorem reexport_is_identical (base s : State) (he : Exportable s) :
-    ∃ s', importG base (exportG s) = some s' ∧ exportG s' = exportG s := by
+    ∃ s', importG base (jsonG (exportG s)) = some s' ∧ exportG s' = exportG s := by
   obtain ⟨s', h1, h2, h3, _, h5, h6, h7, h8, h9, h10⟩ := import_export_reproduces base s he
   refine ⟨s', h1, ?_⟩
   unfold exportG
   rw [h2, h3, h5, h6, h7, h8, h9, h10]
 
 /-- for every state reachable by a transaction history the round trip succeeds (no panic) and is the identity on the export -/
-theorem roundtrip_on_reachable (H : Str → Str) (pr : Nat) (c : Bool) (ops : List Op) (base : State) :
-    ∃ s', importG base (exportG (run H (initState pr c) ops)) = some s' ∧ exportG s' = exportG (run H (initState pr c) ops) :=
-  reexport_is_identical base _ (reachable_exportable H pr c ops)
+theorem roundtrip_on_reachable (H : Str → Str) (pr : Nat) (c : Bool) (ops : List Op) (hops : ∀ o ∈ ops, opUtf8 o) (base : State) :
+    ∃ s', importG base (jsonG (exportG (run H (initState pr c) ops))) = some s' ∧ exportG s' = exportG (run H (initState pr c) ops) :=
+  reexport_is_identical base _ (reachable_exportable H pr c ops hops)
+
+/-- the side condition is met by every history of transactions: only `inject` (a record written by an earlier import) carries it -/
+example : ∀ o ∈ [Op.record "a1" 1 [Char.ofNat 0xFF] (some 5) [] [] [] [], Op.prevote "o1" "v1" [Char.ofNat 0xFF] 0, Op.block], opUtf8 o := by
+  intro o ho
+  simp only [List.mem_cons, List.mem_nil_iff, or_false] at ho
+  rcases ho with h | h | h <;> subst h <;> trivial
 
 end Settlus.C17
